@@ -114,3 +114,44 @@ def run(ctx: Ctx):
         if diffs:
             ctx.violation("failing-input", "reversed-vs-model", scen.brief(sc),
                           dict(differences=[dict(what=p, implementation=str(x)[:300], model=str(y)[:300]) for p, x, y in diffs[:3]]), tags=tags)
+
+    # ---- across a restart: a backward run continued from its own output (the files of a backward run hold descending times; the
+    # restart continues from the last record of a file) equals the mirrored forward run continued from its output
+    from harness.props import c08
+    wcases = [scen.gen(ctx.seed * 100000 + 11800 + k, rev=True, layout="sparse", numrec=[2, 3][k % 2], period=1, nsteps=8, kills=bool(k % 2), speed=1.0,
+                       continuous=bool(k % 3 == 2), scheme=["EF", "RK2", "RK4"][k % 3]) for k in range(12 if ctx.thorough else 4)]
+    wjobs = []
+    for sc in wcases:
+        wjobs += [sc, mirror(sc)]
+    wres = pmap(c08.run_base_and_restarts, wjobs)
+    for k, sc in enumerate(wcases):
+        gr, gf = wres[2 * k], wres[2 * k + 1]
+        S = sc["start"]
+        case = dict(scenario=scen.brief(sc))
+        ctx.case("pair-across-a-restart", [sc["seed"], sc["scheme"], sc["numrec"]], sample=dict(case, restarts=len(gr.get("restarts", []))), nontrivial=True)
+        if gr["status"] != "ok" or gf["status"] != "ok" or len(gr["restarts"]) != len(gf["restarts"]):
+            ctx.violation("failing-input", "pair-across-a-restart", case, dict(reversed_status=gr["status"], mirrored_forward_status=gf["status"],
+                          restarts=[len(gr.get("restarts", [])), len(gf.get("restarts", []))]), tags=dict(first="status"))
+            continue
+        for rr_, rf_ in zip(gr["restarts"], gf["restarts"]):
+            bad = None
+            if rr_["status"] != "ok" or rf_["status"] != "ok":
+                bad = dict(what="status of the restarted runs", reversed=rr_["status"], mirrored_forward=rf_["status"])
+            else:
+                a, b = recs(sc, rr_), recs(sc, rf_)
+                if len(a) != len(b):
+                    bad = dict(what="number of records after the restart", reversed=[x["abs_time"] for x in a], mirrored_forward=[y["abs_time"] for y in b])
+                for i, (x, y) in enumerate(zip(a, b)):
+                    if bad:
+                        break
+                    if y["abs_time"] != 2 * S - x["abs_time"]:
+                        bad = dict(what="mirrored record time", record=i, reversed=x["abs_time"], mirrored_forward=y["abs_time"]); break
+                    if x["pid"] != y["pid"]:
+                        bad = dict(what="particle set", record=i, reversed=x["pid"], mirrored_forward=y["pid"]); break
+                    for v in ("X", "Y", "Z", "age", "temp"):
+                        if v in x and any(abs(p_ - q_) > 1e-9 * max(1.0, abs(p_)) for p_, q_ in zip(x[v], y[v])):
+                            bad = dict(what=v, record=i, reversed=x[v], mirrored_forward=y[v]); break
+            if bad:
+                ctx.violation("failing-input", "pair-across-a-restart", dict(case, restart_from_file=rr_["k"]),
+                              dict(bad, theorem="Ladim.C10.reverse_eq_mirror / Ladim.C10.release_mirror (warm starts included)"), tags=dict(first="restart", what=bad["what"].split(" ")[0]))
+                break
